@@ -289,14 +289,8 @@ def explore(ctx):
                 only = getattr(ufo2ft, fn)(ds, variableFeatures=vfeat, variableFontNames=["VFWght"], **wkw)
                 if sorted(only) != ["VFWght"]:
                     ctx.spec_failure(case, "variableFontNames=['VFWght'] built %r" % sorted(only))
-                else:
-                    def tabs(tt):
-                        b = io.BytesIO(); tt.save(b); t2 = TTFont(io.BytesIO(b.getvalue()))
-                        return {t: t2.reader[t] for t in t2.reader.keys() if t != "head"}
-                    ta, tb = tabs(only["VFWght"]), tabs(vfs["VFWght"])
-                    if ta != tb:
-                        ctx.spec_failure(case, "VFWght built alone differs from VFWght built together with VFFull in %r" % sorted(
-                            t for t in set(ta) | set(tb) if ta.get(t) != tb.get(t)))
+                # (its bytes are NOT compared with the VFWght of the joint build: the masters are converted to quadratics jointly
+                # over the sources that are compiled, so fewer sources legitimately give other splines -- sweep seeds 701-715)
                 targets = []
                 for vname, keep in (("VFFull", [0, 1, 2]), ("VFWght", [0, 2])):
                     b = io.BytesIO(); vfs[vname].save(b)
